@@ -16,7 +16,7 @@ JsonBodies == {"ok", "empty", "notJson", "jsonNull", "jsonArray", "jsonNumber", 
                "signatureNumber", "signatureMissing", "signatureOddHex", "signatureShort", "versionString", "versionHuge", "versionNegative",
                "levelsNull", "levelsObject", "svnOutOfRange", "svnNegative", "svnString", "componentsShort", "componentsLong",
                "statusUnknown", "statusNumber", "dateGarbage", "hexOdd", "hexNotHex", "deeplyNested", "truncated", "utf8Garbage",
-               "identitiesNull", "identityLevelsNull", "maskShort", "maskLong"}
+               "identitiesNull", "identityLevelsNull", "identityIdsOdd", "identityIdTypes", "maskShort", "maskLong"}
 CrlBodies == {"ok", "empty", "garbage", "truncated", "pemInsteadOfDer", "certInsteadOfCrl", "hugeJunk"}
 BodiesOf(ep) == IF ep \in {"tcb", "qe"} THEN JsonBodies ELSE CrlBodies
 
